@@ -257,16 +257,16 @@ fn check_orders(cx: &mut Ctx, model: &AstModel, oref: &crate::rules::grammar_rul
         };
         // ExprJoinedStr has a bespoke override (shared location for the pieces); checked separately
         if name == "ExprJoinedStr" && is_override {
-            let t = sm::tsx(block);
-            // start located (moves the cursor), end only looked ahead, one shared location handed to the piece helper
-            let re = regex::Regex::new(r"^\{let(\w+)=self\.locate\(node\.range\.start\(\)\);let(\w+)=self\.locate_only\(node\.range\.end\(\)\);(?:let(\w+)=SourceRange::new\((\w+),(\w+)\);(\w+)\(self,node,(\w+)\)|(\w+)\(self,node,SourceRange::new\((\w+),(\w+)\)\))\}$").unwrap();
-            let shape_ok = re.captures(&t.text).map_or(false, |c| {
-                if c.get(3).is_some() {
-                    c[1] == c[4] && c[2] == c[5] && c[3] == c[7] && loc.free_fns(&c[6]).len() == 1
-                } else {
-                    c[1] == c[9] && c[2] == c[10] && loc.free_fns(&c[8]).len() == 1
+            // start located (moves the cursor), end only looked ahead, one shared location handed to the piece helper:
+            // read symbolically (result term + ordered trace of calls), so locals may be named and placed freely
+            let shape_ok = match crate::eval::symbolic(block, &[("SourceRange::new", &["start", "end"])]) {
+                Ok((term, trace)) => {
+                    let re = regex::Regex::new(r"^(\w+)\(self,node,\{end:self\.locate_only\(node\.range\.end\(\)\),start:self\.locate\(node\.range\.start\(\)\)\}\)$").unwrap();
+                    let helper_ok = re.captures(&term).map_or(false, |c| loc.free_fns(&c[1]).len() == 1);
+                    helper_ok && trace.len() == 3 && trace[0] == "self.locate(node.range.start())" && trace[1] == "self.locate_only(node.range.end())" && trace[2] == term
                 }
-            });
+                Err(_) => false,
+            };
             if shape_ok {
                 cx.ok("C13.O3", "fold_expr_joined_str: start located, end looked ahead, pieces share the location");
             } else {
@@ -402,8 +402,31 @@ fn locator_siblings(cx: &mut Ctx, loc: &Src) {
             }
         }
     }
-    let want_w = "{self.locate(user.start())}";
-    let want_m = "{letend=self.locate(user.end());Ok((start..end).into())}";
+    // symbolic reading (result term + trace of calls on self), independent of how the locals are named and placed;
+    // `(a..b).into()` and `SourceRange::new(a, b)` build the same range (From<Range<SourceLocation>> for SourceRange)
+    let mut sym: BTreeMap<String, BTreeMap<String, String>> = BTreeMap::new();
+    for i in loc.impls() {
+        if sm::trait_name(i).as_deref() != Some("Fold") {
+            continue;
+        }
+        let ty = sm::self_ty_name(i);
+        for it in &i.items {
+            if let syn::ImplItem::Fn(f) = it {
+                let n = f.sig.ident.to_string();
+                if n == "will_map_user" || n == "map_user" {
+                    let r = match crate::eval::symbolic(&f.block, &[("SourceRange::new", &["start", "end"])]) {
+                        Ok((term, trace)) => format!("{} after [{}]", term, trace.join("; ")),
+                        Err(e) => format!("not interpretable: {}", e),
+                    };
+                    sym.entry(ty.clone()).or_default().insert(n, r);
+                }
+            }
+        }
+    }
+    let _ = &bodies;
+    let bodies = sym;
+    let want_w = "self.locate(user.start()) after [self.locate(user.start())]";
+    let want_m = "{end:self.locate(user.end()),start:start} after [self.locate(user.end())]";
     for ty in ["RandomLocator", "LinearLocator"] {
         let b = bodies.get(ty).cloned().unwrap_or_default();
         if b.get("will_map_user").map(|s| s.as_str()) == Some(want_w) && b.get("map_user").map(|s| s.as_str()) == Some(want_m) {
@@ -413,10 +436,19 @@ fn locator_siblings(cx: &mut Ctx, loc: &Src) {
         }
     }
     let b = bodies.get("LinearLookaheadLocator").cloned().unwrap_or_default();
-    if b.get("will_map_user").map(|s| s.as_str()) == Some("{self.0.locate_only(user.start())}") && b.get("map_user").map(|s| s.as_str()) == Some("{letend=self.0.locate_only(user.end());Ok((start..end).into())}") {
+    if b.get("will_map_user").map(|s| s.as_str()) == Some("self.0.locate_only(user.start()) after [self.0.locate_only(user.start())]") && b.get("map_user").map(|s| s.as_str()) == Some("{end:self.0.locate_only(user.end()),start:start} after [self.0.locate_only(user.end())]") {
         cx.ok(rule, "LinearLookaheadLocator differs only by locate_only on the wrapped locator");
     } else {
         cx.fail(rule, &format!("{}/LinearLookaheadLocator", rule), &loc.rel, &format!("LinearLookaheadLocator's will_map_user/map_user are {:?}", b));
+    }
+    // the two ways of building a SourceRange agree: new(start, end) and From<Range> both store start and Some(end)
+    if let Ok(sc) = sm::load(&cx_repo(), "core/src/source_code.rs") {
+        let t = sm::tsx(&sc.file);
+        if t.contains("{SourceRange{end:Some(end),start}}") && t.contains("{SourceRange{end:Some(value.end),start:value.start}}") {
+            cx.ok(rule, "SourceRange::new(a, b) and (a..b).into() build the same range");
+        } else {
+            cx.fail(rule, &format!("{}/range-constructors", rule), &sc.rel, "SourceRange::new / From<Range<SourceLocation>> do not both store { start, end: Some(end) }");
+        }
     }
     // associated types agree
     let t = sm::tsx(&loc.file);
